@@ -47,6 +47,10 @@ CLAIMED = {
           "Every scenario is run under a baseline and generated configurations (1-5 workers, quantum 1..1000, partial-visibility interleavings); each awaiter of the failing process must fail with the identical error, each process that does not await it must reach its model result, and no step may panic, return Err or leave the system idle with a blocked process. Exploration only.",
           "Trusts the simulator's transport model; worker/environment steps run under catch_unwind with debug assertions on. Scenarios terminate by construction.",
           "DESIGN.md §4 C15"),
+  "C16": ("proptest-generated tail-recursive program shapes; oracle: metamorphic space comparison at N vs 50N with profiling on (peak frames / locals / operand stack EQUAL, heap slots bounded by 2x+4) + host-loop result model",
+          "Shapes: `^`, mutual recursion through function parameters (`^other`) and through record fields (`^m.go`), closures chained by `^~`, entry by `^f`; 0-3 state binaries rebuilt every iteration; the tail call under 0-4 generated wrappers (nested/redundant blocks, bindings, consequence, branch after a failed binding pattern), two wrapper stacks by parity. Each shape runs at (N, 50N) with quantum 64 and, if it allocates, at (2N, 100N) with quantum 1000. Exploration only.",
+          "Trusts ExecutionStats peaks (profile = true) and heap_stats().slots as the measures the property names. Only genuine tail positions are generated (a non-tail `^` is the recorded C07 finding).",
+          "DESIGN.md §4 C16"),
   # id: (technique, level text, level note, design_ref)
   "C18": ("proptest-generated inputs + corpus mutation (prefix/token delete/dup/subst/transpose/wide-char) + bracket nests to depth 100; oracle: no panic, located error, deterministic production budget",
           "Generated-input search over front-end inputs: every run parses ~10^5 generated/mutated texts and compiles the accepted ones, checking no panic, error position inside the input on a char boundary with consistent line/column, and a polynomial production budget via hook H5. Exploration only: absence is not established.",
